@@ -246,6 +246,24 @@ impl<'tcx> Ex<'tcx> {
         for (l, d) in body.local_decls.iter_enumerated() {
             ls.push(format!("{{\"ty\":{},\"head\":{},\"name\":{}}}", esc(&format!("{:?}", d.ty)), esc(&self.ty_head(d.ty)), esc(&names[l.as_usize()])));
         }
+        // promoted constants: dump the statements of each promoted body (they are tiny: `_0 = &CONST`)
+        let mut proms = Vec::new();
+        if matches!(kind, DefKind::Fn | DefKind::AssocFn | DefKind::Closure) {
+            for pb in tcx.promoted_mir(did).iter() {
+                self.cur.set(Some(pb));
+                let mut sts = Vec::new();
+                for data in pb.basic_blocks.iter() {
+                    for st in &data.statements {
+                        if let StatementKind::Assign(bx) = &st.kind {
+                            sts.push(format!("{{\"lhs\":{},\"rv\":{}}}", self.place(&bx.0), self.rvalue(&bx.1)));
+                        }
+                    }
+                }
+                proms.push(format!("[{}]", sts.join(",")));
+            }
+            self.cur.set(Some(body));
+        }
+        let _ = write!(out, "\"promoted\":[{}],", proms.join(","));
         let _ = write!(out, "\"locals\":[{}],\"blocks\":[", ls.join(","));
         let mut firstb = true;
         for (_bb, data) in body.basic_blocks.iter_enumerated() {
